@@ -79,8 +79,8 @@ def run(run: common.Run):
             sw, sh = rng.randint(4, 14), rng.randint(4, 14)
             rx0, rytop = src.x0 - (src.x0 % pr), src.ytop - (src.ytop % pr)
             sub = rng.choice([0, pr // 2, 1 if pr > 1 else 0])
-            if case['family'] != 'dyadic' and pr > 1:
-                sub = rng.randrange(1, pr)  # no coinciding pixel edges in decimal geometry (see rasters.pair_geometry)
+            if rasters.noisy_edges(case['family'], ps, pr) and pr > 1:
+                sub = rasters.offgrid_offset(rng, case['family'], ps, pr)  # no coinciding pixel edges (see rasters.pair_geometry)
             sx0, sytop = rx0 + 3 * pr + sub, rytop - 2 * pr - sub
             rw = -(-(sx0 + sw * ps - rx0) // pr) + 3
             rh = -(-(rytop - (sytop - sh * ps)) // pr) + 2
